@@ -2,6 +2,8 @@
 C17 — the client talks only to servers whose host key is trusted.
 -/
 import DtailModel.Model.KnownHosts
+import DtailModel.Lemmas.GenKnownHosts
+set_option autoImplicit false
 namespace Dtail.C17
 open Dtail
 
@@ -68,5 +70,44 @@ theorem C17_full_false : ∃ (maxTok : Nat) (old : Bytes),
 theorem C17_rewrite_identity_example :
     trustHostsFile 65536 [] (b!"# c\nh1 k1\n|1|salt|hash k2\n@revoked * k3\n") = b!"# c\nh1 k1\n|1|salt|hash k2\n@revoked * k3\n" := by
   decide
+
+/-- **Tie G: the rewrite of the known-hosts file as translated from the working tree.**  `KnownHostsCallback.trustHosts` of
+    internal/ssh/client/knownhostscallback.go, translated on this run with its file operations recorded in order: when no
+    operation fails, the function does not panic (`strings.SplitN(line, " ", 2)[0]` is guarded and the guard never fails)
+    and performs, in this order: open the temporary file truncating it, write the model's `trustHostsLines` — the new
+    entries, then every line the scanner delivers from the old file whose address is not among the newly trusted ones, each
+    with its newline — with the old file touched and opened for reading in between, and rename the temporary file over the
+    old one.  `knownhosts.Normalize`, the lines the `bufio.Scanner` delivers and the success of the file operations are
+    parameters. -/
+theorem C17_generated_trustHosts_writes_model_lines (ext : Go.Ext) (hio : Go.NoIOErr ext)
+    (c : Gen.KnownHosts.KnownHostsCallback) (hosts : List Gen.KnownHosts.unknownHost) :
+    ∃ c', Gen.KnownHosts.KnownHostsCallback.trustHosts ext c hosts = Outcome.ok c' ∧
+      let tmp := c.knownHostsPath ++ TMP
+      let lines := trustHostsLines (hosts.map (GenKnownHosts.hostOf ext)) (ext.scanLines c.knownHostsPath)
+      (c'.ops.filterMap fun op => match op with | .write p d => if p = tmp then some d else none | _ => none).flatten
+        = ((c.ops.filterMap fun op => match op with | .write p d => if p = tmp then some d else none | _ => none).flatten)
+          ++ lines.flatMap (· ++ [NL]) ∧
+      c'.ops.getLast? = some (.rename tmp c.knownHostsPath) := by
+  obtain ⟨c', h1, _, h3⟩ := GenKnownHosts.trustHosts_refines ext hio c hosts
+  refine ⟨c', h1, ?_, ?_⟩
+  · rw [h3, ← GenKnownHosts.lines_model]
+    have hw : ∀ (ls : List Bytes), ((ls.map (GenKnownHosts.wr (c.knownHostsPath ++ TMP))).filterMap
+        fun op => match op with | .write p d => if p = c.knownHostsPath ++ TMP then some d else none | _ => none)
+        = ls.map (· ++ [NL]) := by
+      intro ls
+      induction ls with
+      | nil => rfl
+      | cons a r ih => simp only [List.map_cons, List.filterMap_cons, GenKnownHosts.wr, if_true]; rw [ih]; rfl
+    simp only [List.filterMap_append, List.filterMap_cons, List.filterMap_nil, hw, List.flatten_append, List.append_nil,
+      List.flatMap_append, List.append_assoc]
+    simp [List.flatMap, List.flatten_append]
+  · rw [h3, List.getLast?_append]; rfl
+
+/-- non-vacuity: one new host, an old file with its earlier entry and an unrelated one: the earlier entry is replaced -/
+example :
+    let ext : Go.Ext := { parseFloat := fun _ => (0, none), scanLines := fun _ => [b!"h1 old", b!"h2 keep"] }
+    (match Gen.KnownHosts.KnownHostsCallback.trustHosts ext ⟨b!"/k", []⟩ [⟨b!"h1", b!"1.1.1.1", b!"h1 new", b!"1.1.1.1 new"⟩] with
+      | .ok c => c.ops.length
+      | _ => 0) = 7 := by decide
 
 end Dtail.C17
